@@ -10,11 +10,13 @@ use quick_xml::name::{Namespace, PrefixDeclaration, QName, ResolveResult, VerifR
 use quick_xml::reader::{NsReader, Reader};
 
 /// Concrete SHAPES of the user bindings (prefix length, namespace length); contents symbolic.
-pub const SHAPES: [[(usize, usize); 3]; 4] = [
+pub const SHAPES: [[(usize, usize); 3]; 6] = [
     [(0, 1), (1, 1), (1, 0)], // default; p; p unbound
     [(1, 1), (0, 1), (0, 0)], // p; default; default removed
     [(1, 1), (1, 1), (1, 1)], // shadowing / siblings
     [(0, 1), (0, 1), (1, 1)], // default re-declared; p
+    [(1, 0), (1, 1), (0, 1)], // p unbound first; q; default
+    [(0, 0), (1, 1), (0, 1)], // default removed first; p; default again
 ];
 
 struct Model {
